@@ -188,6 +188,17 @@ def cmd_check(args) -> int:
         # a harness error is never a verdict; but a check that could not run is not a pass either
         if exit_code == C.EXIT_OK and len(harness_errors) > max(2, evaluations // 50):
             exit_code = C.EXIT_HARNESS
+    # Exceptions out of simulated runs are observations (totality is not claimed) - but an exception class
+    # the unchanged tree never shows usually means the code under test used an interface a stub lacks.
+    expected_exc = {"UnicodeDecodeError", "IndexError", "RecursionError", "SyntaxError", "IndentationError", "ValueError"}
+    for k, v in sorted(stats.items()):
+        if "run_raised." in k:
+            exc = k.rsplit(".", 1)[1]
+            if exc not in expected_exc:
+                print(f"WARNING simulated runs raised {exc} x{v} ({k}): possible gap between a stub and what it replaces")
+                if v >= max(5, evaluations // 4) and exit_code == C.EXIT_OK:
+                    print("HARNESS-ERROR too many simulated runs died with an unexpected exception; the check did not really run")
+                    exit_code = C.EXIT_HARNESS
     zero_probes = [p for p in plan.get("probes", []) if not any(k.endswith(p) and v for k, v in stats.items())]
     for p in zero_probes:
         print(f"WARNING probe never fired: {p}")
